@@ -1,4 +1,4 @@
-(* C14 - parameter validators admit exactly the conforming calls.  Statements only; proofs in Lemmas/ValidatorsL.v.
+(* C14 - parameter validators let exactly the conforming calls through.  Statements only; proofs in Lemmas/ValidatorsL.v.
    [js_valid] is the definition of conformance for the JSON-Schema fragment of the quantifier (cross-checked against the
    jsonschema package on every case); pydantic's per-argument verdicts are oracle data. *)
 From Coq Require Import ZArith List String Ascii Bool.
